@@ -161,6 +161,7 @@ SBuf::rawAppendFinish(const char *start, size_type actualSize)
 char *
 SBuf::rawSpace(size_type minSpace)
 {
+    Must(minSpace <= maxSize); // also keeps the subtraction below from wrapping
     Must(length() <= maxSize - minSpace);
     debugs(24, 7, "reserving " << minSpace << " for " << id);
     ++stats.rawAccess;
